@@ -260,6 +260,12 @@ impl<'a> G<'a> {
                     }
                     _ => {}
                 }
+                if let Some(dot) = name.rfind('.') {
+                    // a dot is an ordinary name character: `_x.y(..)` is ONE function name even when `_x` is a variable
+                    if dot > 0 && self.r.chance(1, 2) {
+                        ctx.vars.push((name[..dot].to_string(), Val::int(5)));
+                    }
+                }
                 let args = match self.r.below(3) {
                     0 => vec![lit_i(self.r.range(1, 2))],
                     1 => vec![lit_i(self.r.range(1, 9)), lit_i(self.r.range(1, 9))],
